@@ -15,6 +15,28 @@ CHECKS = {
             "of counter-examples among N cases, with label histograms showing the narrow regions were hit.",
             "trusts: proptest, the harness's own resolver over the public reflection types (cross-checked in C16), lz4/zstd crates",
             "DESIGN.md 2/C01"),
+    "C02": ("exploration",
+            "property-based round-trip testing (proptest) over the three option pairings, expectation model computed from the spec",
+            "Generated forests restricted to XML-supported types and XML-1.0-legal characters (incl. ']]>', markup, CR/LF, whitespace-only) are written "
+            "by rbx_xml and read back under default/default, WriteUnknown+ReadUnknown and NoReflection+NoReflection; the decoded DOM is compared with "
+            "an expectation computed from the spec (floats bit-exact unless NaN). Sampling: absence of counter-examples among N cases.",
+            "trusts: proptest, the harness's database resolver (cross-checked in C16)",
+            "DESIGN.md 2/C02"),
+    "C03": ("exploration",
+            "differential testing of the serializer against an independent decoder written from docs/binary.md, on proptest-generated DOMs",
+            "Every file rbx_binary writes for a generated forest (x3 compressions) is parsed by a reference decoder written from docs/binary.md that "
+            "shares no code with rbx_binary; structure (header counts, chunk framing/order/multiplicity, one INST per class, one value per instance per "
+            "PROP consuming the chunk exactly, PRNT completeness and children-before-parents, SSTR de-duplication, END chunk) and meaning (classes, "
+            "hierarchy, serialized names, wire types, values) are compared with the spec. Two documented-vs-implemented layout disagreements are open findings.",
+            "trusts: docs/binary.md as the specification (points where it is silent or self-contradictory are listed in evidence.assumptions), lz4/zstd block decompression",
+            "DESIGN.md 2/C03"),
+    "C04": ("exploration",
+            "differential testing of the reader against an independent encoder written from docs/binary.md, driven by proptest-generated encoding plans",
+            "Generated logical DOMs are rendered by a reference encoder written from docs/binary.md under a generated plan that varies every degree of "
+            "freedom the document leaves open (per-chunk compression, INST/PROP order, class ids, sparse referents, PRNT order, META, unknown chunks, "
+            "service-format INST, narrower legacy numeric columns, truncated / unknown-type PROP chunks); rbx_binary must decode each to the logical DOM.",
+            "trusts: docs/binary.md, the implementation's UniqueId/Content.SourceTypes layout (disagreement with the document reported under C03)",
+            "DESIGN.md 2/C04"),
 }
 
 NOT_YET = {
